@@ -276,3 +276,35 @@ class Timer:
 
     def elapsed(self):
         return time.time() - self.t0
+
+
+# ---- floors --------------------------------------------------------------------------------------------------------------
+# A rule records a failed floor (fewer rule instances than confirmed by reading) instead of aborting: the obligations it has
+# already judged are kept, so a floor can never mask a violation found by the same rule.  With no other failed obligation the
+# pending floor still makes the check end as ANALYSIS-ERROR (UNDECIDED), exactly as before.
+PENDING_FLOORS = []
+
+
+def note_floor(msg):
+    PENDING_FLOORS.append(msg)
+
+
+def call_rule(rule, repo, clause, **kwargs):
+    del PENDING_FLOORS[:]
+    try:
+        got = rule(repo, clause, **kwargs)
+    except AnalysisError:
+        raise
+    except Exception as e:
+        if PENDING_FLOORS:
+            raise AnalysisError("%s (and then %s: %s)" % (PENDING_FLOORS[0], type(e).__name__, e))
+        raise
+    if PENDING_FLOORS:
+        msgs = list(PENDING_FLOORS)
+        del PENDING_FLOORS[:]
+        if not got:
+            raise AnalysisError(msgs[0])
+        anchor = FileObj(got[0].file, got[0].func)
+        for i, m in enumerate(msgs):
+            got.append(Ob(got[0].rule, clause, anchor, None, False, m, construct="floor of rule %s" % rule.__name__, slot="floor:%d" % i, undecided=True))
+    return got
